@@ -182,6 +182,29 @@ class Impl:
         elif k == "cell_size":
             r = u.get_cell_size()
             return None if r is None else tuple(r)
+        elif k == "cell_size_int":
+            # get_cell_size() interrupted at its op[1]-th call into the terminal (KeyboardInterrupt at any
+            # call, termios.error at a tcgetattr / tcsetattr only); if that call is never reached, or the
+            # library handles the error, this is an ordinary get
+            t = self.tty
+            if op[2] == "kbd":
+                t.fault = (t.ncalls + op[1], "instead", KeyboardInterrupt)
+            else:
+                t.fault = (t.ncalls + op[1], "instead", lambda: world._real_termios.error(5, "Input/output error"),
+                           lambda kind, detail: kind not in ("tcgetattr", "tcsetattr"))
+            t.fault_fired = False
+            try:
+                r = u.get_cell_size()
+                return None if r is None else tuple(r)
+            except (KeyboardInterrupt, world._real_termios.error):
+                if not t.fault_fired:
+                    raise
+                # the terminal's answer to the abandoned query arrives and is never read
+                del t.pending[:]
+                del t.inq[:]
+                return "interrupted"
+            finally:
+                t.fault = None
         elif k == "cell_ratio":
             return ti.get_cell_ratio()
         elif k == "colors":
@@ -279,7 +302,11 @@ def alphabet(group, nenv):
         return res + qu + b + [["colors", 0]]
     c = [["tsc"], ["tsc_inv"], ["cached", 0], ["cached", 1], ["cached_inv"], ["fail_next"]]
     if group == "cell":
-        return res + sw + qu + a
+        return res + sw + qu + a + [["cell_size_int", k, "kbd"] for k in (1, 2, 5, 9, 13, 40, 67)] + \
+            [["cell_size_int", k, "termios"] for k in (4, 66)]
+    if group == "cell-large":
+        return res + sw + qu + a + [["cell_size_int", k, "kbd"] for k in list(range(1, 16)) + [40, 65, 66, 67]] + \
+            [["cell_size_int", k, "termios"] for k in (2, 3, 4, 7, 8, 9, 66, 67)]
     if group == "query-memos":
         return res + qu + b
     if group == "probes":
@@ -298,7 +325,7 @@ def searches(tier):
              ("probes", "probes", [0, 1, 2], None, True)]
     if tier == "quick":
         return small
-    return small + [("cell-large", "cell", [0, 1, 2, 3, 4, 5, 6, 7], None, True),
+    return small + [("cell-large", "cell-large", [0, 1, 2, 3, 4, 5, 6, 7], None, True),
                     ("query-memos-large", "query-memos3", [0, 3], None, True),
                     ("probes-large", "probes+switches", [0, 1, 2, 3], None, True),
                     ("all", "all", [0, 1, 2], 6, True),
@@ -328,6 +355,8 @@ def _expand(histories):
                 k0 = mach.key()
             if op[0] == "resize" and mach.impl.e == op[1]:
                 continue
+            if op[0] == "cell_size_int" and envs[mach.impl.e].xpx and envs[mach.impl.e].ypx:
+                continue        # the query path (where a get can be interrupted) needs an ioctl without pixels
             v = mach.step(op)
             col.count()
             h2 = h + (oi,)
@@ -413,7 +442,7 @@ def cross_check(merged_r, unmerged_r):
 
 
 def _opname(op):
-    return op[0] if len(op) == 1 else f"{op[0]}({op[1]})"
+    return op[0] if len(op) == 1 else f"{op[0]}({','.join(map(str, op[1:]))})"
 
 
 # ---------------------------------------------------------------------------------- thread part
